@@ -1,5 +1,5 @@
 (* C14 - Algorithm and attestation-format lists are filtered in order, never rejected. *)
-From Ctap Require Import Base Schema Wire Utf8 Typed Procs Inst Tables ProcTables Finite FramingP WireP FilterP ObRequestSide.
+From Ctap Require Import Base Schema Wire Utf8 Typed Procs Inst Tables ProcTables Finite FramingP WireP FilterP ObRequestSide FnShapes Shapes ObShapeFilters.
 Local Open Scope string_scope.
 Local Open Scope Z_scope.
 
@@ -61,6 +61,11 @@ Example c14_ex :
   = [VRec [("alg", VZ (-8))]; VRec [("alg", VZ (-7))]].
 Proof. vm_compute. reflexivity. Qed.
 
+(* tie to the source for the hand-modelled procedural code: the bodies of these functions, as regenerated from
+   /repo now, have the shape (literals, operators, calls, control flow, constants) the model was written against *)
+Theorem c14_modelled_functions_unchanged_filters : shapes_hold fn_shapes shapes_filters = true.
+Proof. exact generated_shapes_filters. Qed.
+
 Eval vm_compute in "ASSUMPTIONS c14_known_param". Print Assumptions c14_known_param.
 Eval vm_compute in "ASSUMPTIONS c14_params_filter". Print Assumptions c14_params_filter.
 Eval vm_compute in "ASSUMPTIONS c14_loop_is_fold". Print Assumptions c14_loop_is_fold.
@@ -68,3 +73,4 @@ Eval vm_compute in "ASSUMPTIONS c14_formats_filter". Print Assumptions c14_forma
 Eval vm_compute in "ASSUMPTIONS c14_model_steps". Print Assumptions c14_model_steps.
 Eval vm_compute in "ASSUMPTIONS c14_generated_constants". Print Assumptions c14_generated_constants.
 Eval vm_compute in "ASSUMPTIONS c14_generated_conforms". Print Assumptions c14_generated_conforms.
+Eval vm_compute in "ASSUMPTIONS c14_modelled_functions_unchanged_filters". Print Assumptions c14_modelled_functions_unchanged_filters.
